@@ -219,13 +219,14 @@ func Main(prop string) {
 }
 
 func ruleText(prop string) string {
-	return "Seeded histories (few keys, many conflicts) over real publisher+follower visors on bolt files: user/foreign transaction injections (valid, soft-invalid, hard-invalid, conflicting), publisher block creation, harness-signed direct blocks, forged blocks (one targeted rule broken, validly signed), replays/duplicates/skip-ahead, pool refresh/remove-invalid, reopen. After every step the shadow ledger (math/big, own encodings, textbook secp256k1) is compared with the node. evaluations = steps executed; distinct_nontrivial = distinct (history, final state) plus distinct forged/mutation classes observed rejected and distinct transaction classes admitted. Property decided here: " + prop
+	return "Seeded histories (few keys, many conflicts) over real publisher+follower visors on bolt files (plus an arbitrating mirror node and concurrent read-only clients): user/foreign transaction injections (valid, soft-invalid, hard-invalid, conflicting), publisher block creation, harness-signed direct blocks, forged blocks (one targeted rule broken, validly signed), replays/duplicates/skip-ahead, pool refresh/remove-invalid, reopen. After every step the shadow ledger (math/big, own encodings, textbook secp256k1) is compared with the node. evaluations = steps executed; distinct_nontrivial = distinct (history, final state) plus distinct forged/mutation classes observed rejected and distinct transaction classes admitted. Property decided here: " + prop
 }
 
 func assumptions(prop string) []string {
 	return []string{
 		"the shadow ledger (lib/ledger) states the rules correctly; it was written from the property statements and shares only plain data structs and SHA-256/RIPEMD-160 with the code under test",
-		"forged blocks are submitted to a non-arbitrating follower; the arbitrating publisher only receives its own and harness-built valid blocks",
+		"forged blocks are submitted to a non-arbitrating follower (decision judged) and to an arbitrating mirror node (decision not judged; what it stored is judged against its own shadow ledger); the arbitrating publisher only receives its own and harness-built valid blocks",
+		"concurrent read-only clients run beside the history in a deterministic subset of histories; their interleaving with block execution is not controlled (counters readers.reads show how many overlapped)",
 		"block-level output-hours wrap (documented legacy rule) is recorded, not asserted",
 		"held on the executions produced; not a proof",
 	}
